@@ -105,6 +105,7 @@ def _work(payload):
                     hist.add((n, conn, gens, fmt, trace))
                     if ob is not None:
                         obs.append(tuple(ob) + (M.gens_str(gens, n), fmt if fmt != "circuit" else "matrices"))
+    counters["_sample"] = hist.to_case(hist.raw[len(hist.raw) // 2]) if hist.raw else None
     return counters, fails, obs
 
 
@@ -125,7 +126,15 @@ def run_units(ctx, judge, units, nontrivial=None):
         payloads = [(name, ch, [(conns, fmts)] * len(ch)) for ch in chunked]
         results = core.pmap(_work, payloads)
         ncases = 0
-        for counters, fails, obs in results:
+        for k, (counters, fails, obs) in enumerate(results):
+            smp = counters.pop("_sample", None)
+            if smp is not None and k == 0:
+                smp = dict(smp)
+                smp.pop("kind", None)
+                smp["family"] = label
+                if smp.get("trace") is not None and len(smp["trace"]) > 12:
+                    smp["trace"] = smp["trace"][:12] + ["..."]
+                ctx.sample(smp, limit=40)
             ncases += counters["cases"]
             ctx.count("api_cases", counters["cases"])
             ctx.count("states", counters["model_states"])
